@@ -49,6 +49,14 @@ def _make(cid: str):
 
 A = _make("A")
 B = _make("B")
+# The strings given to install_import_hook are LONG and differ only in their last character:
+# anything that abbreviates a typechecker expression (a cache tag, a registry key) must not
+# confuse the two.
+spy_typechecker_with_a_long_descriptive_name_and_a_common_prefix_A = A
+spy_typechecker_with_a_long_descriptive_name_and_a_common_prefix_B = B
 
-PATH = {"A": "vf.fixtures.spyck.A", "B": "vf.fixtures.spyck.B"}
+PATH = {
+    "A": "vf.fixtures.spyck.spy_typechecker_with_a_long_descriptive_name_and_a_common_prefix_A",
+    "B": "vf.fixtures.spyck.spy_typechecker_with_a_long_descriptive_name_and_a_common_prefix_B",
+}
 TUPLE = {"A": ("vf.fixtures.spyck", "A"), "B": ("vf.fixtures.spyck", "B")}
